@@ -2123,7 +2123,23 @@ func (c *c02ctx) r9LengthArith() {
 				}
 			}
 		})
-		if ok {
+		// whatever the idiom, the round-up must not be computed in a 32-bit type: the declared length is a full uint32
+		narrowAt := token.NoPos
+		allInstrs(fn, func(in ssa.Instruction) {
+			bo, isB := in.(*ssa.BinOp)
+			if !isB || (bo.Op != token.ADD && bo.Op != token.AND_NOT && bo.Op != token.MUL && bo.Op != token.SHL) {
+				return
+			}
+			if b, isBasic := bo.Type().Underlying().(*types.Basic); isBasic {
+				switch b.Kind() {
+				case types.Int32, types.Uint32, types.Int16, types.Uint16, types.Int8, types.Uint8:
+					narrowAt = bo.Pos()
+				}
+			}
+		})
+		if narrowAt.IsValid() {
+			r.Bad("C02.R9", "ttlv.ttlvReader.paddedLen/roundup", narrowAt, "paddedLen() rounds the declared length up in a 32-bit type: for a length within 7 of 2^32 the sum wraps to a small value, the extent check passes and the reader slices beyond the buffer (or a huge announced message is taken for an 8-byte one)")
+		} else if ok {
 			r.OK("C02.R9", "ttlv.ttlvReader.paddedLen/roundup", fn.Pos(), "paddedLen() is len() rounded up to a multiple of 8, computed in int: paddedLen() >= len()")
 		} else {
 			r.Unk("C02.R9", "ttlv.ttlvReader.paddedLen/roundup", fn.Pos(), "paddedLen() is not one of the recognised round-up idioms (l + padForLen(l, 8), (l+7) &^ 7 on the int returned by len()): paddedLen() >= len() cannot be established")
